@@ -34,7 +34,8 @@ FAMILIES = []
 # ------------------------------------------------------------------------------ Noh
 FAMILIES.append(fam(
     "Noh", "noh.noh1.Noh",
-    {"geometry": [3, 1, 2], "gamma": [G53, 1.4, 1.2, 3.0], "u0": [-1.0, -0.5, -3.0], "rho0": [1.0, 0.5, 2.5]},
+    # u0 = -0.25 is a slow inflow: the pre-shock compression (1 + |u0| t / r_s)^k then matters for admissibility (S2-C17-2)
+    {"geometry": [3, 1, 2], "gamma": [G53, 1.4, 1.2, 3.0], "u0": [-1.0, -0.5, -3.0, -0.25], "rho0": [1.0, 0.5, 2.5]},
     times=lambda c: [0.3, 0.6, 1.3],
     domain=lambda c, t: (0.02 * abs(c["u0"]) * t * (c["gamma"] - 1) / 2, 3.0 * abs(c["u0"]) * t * (c["gamma"] - 1) / 2 + 0.5),
     eos="gamma", njumps=1))
